@@ -6,6 +6,7 @@ package main
 
 import (
 	"fmt"
+	"go/token"
 	"go/types"
 	"math"
 	"path/filepath"
@@ -775,6 +776,14 @@ func (in *Interp) symSprintf(f string, argv Value) Value {
 			} else {
 				in.unsupported("fmt: symbolic argument for " + verb)
 			}
+		} else if itf, isI := arg.(Iface); isI && (verb == "%X" || verb == "%x") && isBVTerm(itf.v) {
+			_, signed, _ := basicInfo(itf.t)
+			if signed {
+				// negative values print with a sign; require non-negative
+				t := itf.v.(*Term)
+				in.trapCheck(in.ts.SLe(in.ts.BVConst(0, int(t.sort.W)), t), "gosym: negative symbolic value in %x", token.NoPos)
+			}
+			out = in.strConcat(out, in.symFormatHex(itf.v.(*Term), verb == "%X"))
 		} else if itf, isI := arg.(Iface); isI {
 			if t, isT := itf.v.(*Term); isT && t.sort.K == SBV {
 				// diagnostics only: a symbolic integer/rune is rendered as one
@@ -790,6 +799,42 @@ func (in *Interp) symSprintf(f string, argv Value) Value {
 		i = j
 	}
 	return out
+}
+
+func isBVTerm(v Value) bool {
+	t, ok := v.(*Term)
+	return ok && t.sort.K == SBV
+}
+
+// symFormatHex renders a symbolic unsigned integer in hexadecimal without
+// leading zeros: the digit count is a solver decision (fork), every digit a
+// term.
+func (in *Interp) symFormatHex(t *Term, upper bool) Str {
+	ts := in.ts
+	w := int(t.sort.W)
+	maxDigits := (w + 3) / 4
+	nd := maxDigits
+	for k := 1; k < maxDigits; k++ {
+		if in.branch(ts.ULt(t, ts.BVConst(uint64(1)<<uint(4*k), w))) {
+			nd = k
+			break
+		}
+	}
+	letter := uint64('a' - 10)
+	if upper {
+		letter = 'A' - 10
+	}
+	out := make([]*Term, nd)
+	for i := 0; i < nd; i++ {
+		lo := 4 * (nd - 1 - i)
+		hi := lo + 3
+		if hi >= w {
+			hi = w - 1
+		}
+		nib := ts.ZExt(ts.Extract(t, hi, lo), 8)
+		out[i] = ts.Ite(ts.ULt(nib, ts.BVConst(10, 8)), ts.Add(nib, ts.BVConst('0', 8)), ts.Add(nib, ts.BVConst(letter, 8)))
+	}
+	return normStr(out)
 }
 
 func (in *Interp) noteAssumption(a string) {
